@@ -97,7 +97,7 @@ func runSolver(s solverSpec, input string, timeoutS int) (verdict, output string
 	t0 := time.Now()
 	_ = cmd.Run()
 	secs = time.Since(t0).Seconds()
-	output = out.String()
+	output = dropWarnings(out.String())
 	first := strings.TrimSpace(strings.SplitN(output, "\n", 2)[0])
 	switch first {
 	case "unsat", "sat", "unknown":
